@@ -10,8 +10,6 @@ CONSTANTS
   SizeFrom = "scan"
 INVARIANTS
   TypeOK
-  ToolIsDeletable
-  RemovedDeletable
   OnlyDeletions
   ServablePub
   ServableLock
